@@ -35,6 +35,7 @@ type Sched struct {
 	mu      sync.Mutex
 	threads []*thread
 	free    atomic.Bool
+	focus   map[any]bool
 }
 
 var (
@@ -71,6 +72,56 @@ func New() *Sched {
 	s := &Sched{}
 	cur.Store(s)
 	return s
+}
+
+// Focus restricts controlled points emitted through PointOn to the given objects
+// (method receivers: a *PID, its mailboxes, its dispatch state ...). With an empty
+// focus set every point is controlled. Points of unfocused objects pass through,
+// so a logical thread may run code of other actors without parking there.
+func (s *Sched) Focus(objs ...any) {
+	s.mu.Lock()
+	if s.focus == nil {
+		s.focus = map[any]bool{}
+	}
+	for _, o := range objs {
+		s.focus[o] = true
+	}
+	s.mu.Unlock()
+}
+
+// PointOn is Point for an operation on (a field of) the method receiver obj.
+func PointOn(obj any, label string) {
+	if nreg.Load() == 0 {
+		return
+	}
+	s := cur.Load()
+	if s == nil {
+		return
+	}
+	if s.focus != nil {
+		s.mu.Lock()
+		ok := s.focus[obj]
+		s.mu.Unlock()
+		if !ok {
+			return
+		}
+	}
+	Point(label)
+}
+
+// LockOn is Lock for a mutex field of the method receiver obj: cooperative only
+// when obj is in focus (or there is no focus set).
+func LockOn(obj any, mu *sync.Mutex, label string) {
+	if s := cur.Load(); s != nil && s.focus != nil {
+		s.mu.Lock()
+		ok := s.focus[obj]
+		s.mu.Unlock()
+		if !ok {
+			mu.Lock()
+			return
+		}
+	}
+	Lock(mu, label)
 }
 
 // Point parks the calling logical thread before the operation named label.
